@@ -76,13 +76,72 @@ NAME_ENCODINGS = [
     (2, 1, 0, "utf-16", _BMP),
     (2, 2, 0, "latin-1", "AZaz09 éñüßøÅ"),
 ]
-NAME_SHAPES = ["unicode", "surrogates", "mac", "legacy", "mixed", "shared_strings", "empty_strings", "long", "many"]
+NAME_SHAPES = ["unicode", "surrogates", "mac", "legacy", "mixed", "shared_strings", "same_string_all_triples", "mac_languages",
+               "empty_strings", "long", "many"]
+
+# Macintosh Roman-script records (platform 1, encoding 0) are encoded by *language*: language id -> Python codec
+_MAC_LANG_CODECS = [(0, "mac_roman"), (1, "mac_roman"), (2, "mac_roman"), (15, "mac_iceland"), (17, "mac_turkish"), (18, "mac_croatian"),
+                    (24, "mac_latin2"), (25, "mac_latin2"), (36, "mac_latin2"), (37, "mac_romanian"), (38, "mac_latin2"), (40, "mac_latin2"),
+                    (5, "mac_roman"), (99, "mac_roman")]
+_mac_tables = {}
+
+
+def _mac_table(codec):
+    """{char: byte} of the high half of a Mac codec (Python's codec tables)."""
+    t = _mac_tables.get(codec)
+    if t is None:
+        t = {}
+        for b in range(0x80, 0x100):
+            try:
+                t[bytes([b]).decode(codec)] = b
+            except UnicodeDecodeError:
+                pass
+        _mac_tables[codec] = t
+    return t
+
+
+def _common_string(rnd, codecs, ln):
+    """A string every codec in `codecs` can encode, preferring characters that sit at *different* byte values
+    in at least two of them (the same text must then be stored as different bytes per record)."""
+    tabs = [_mac_table(c) for c in codecs if c.startswith("mac_")]
+    ascii_ = "AZaz09 -."
+    if not tabs:
+        return "".join(rnd.choice(ascii_ + "éÆ©") for _ in range(ln))
+    common = [ch for ch in tabs[0] if all(ch in t for t in tabs)]
+    diverging = sorted(ch for ch in common if len({t[ch] for t in tabs}) > 1)
+    same = sorted(ch for ch in common if ch not in diverging)
+    out = []
+    for _ in range(ln):
+        r = rnd.random()
+        pool = diverging if (r < 0.5 and diverging) else same if (r < 0.75 and same) else ascii_
+        out.append(rnd.choice(pool))
+    if diverging and ln and not any(ch in diverging for ch in out):
+        out[rnd.randrange(ln)] = rnd.choice(diverging)
+    return "".join(out)
 
 
 def gen_names(rnd, shape):
     """-> [(platformID, encodingID, languageID, nameID, unicode string, decoder)] with unique
     (platform, encoding, language, nameID) keys."""
     recs = {}
+    if shape in ("same_string_all_triples", "mac_languages"):
+        # the same text stored under many (platform, encoding, language) triples -- each record has to be encoded
+        # with the codec of its own triple; Mac language ids select different codecs for the same encoding id
+        for _ in range(rnd.randint(1, 4)):
+            langs = rnd.sample(_MAC_LANG_CODECS, rnd.randint(2, 7))
+            others = []
+            if shape == "same_string_all_triples":
+                others = rnd.sample([e for e in NAME_ENCODINGS if e[3] in ("utf-16", "mac_greek", "mac_cyrillic", "latin-1")], rnd.randint(1, 5))
+            s = _common_string(rnd, [c for l, c in langs], rnd.choice([1, 2, 6, 20]))
+            nids = rnd.sample([0, 1, 2, 4, 5, 6, 16, 256, 300], rnd.randint(1, 3))
+            for nid in nids:
+                for l, codec in langs:
+                    recs[(1, 0, l, nid)] = (1, 0, l, nid, s, codec)
+                for p, e, l, codec, alpha in others:
+                    recs[(p, e, l, nid)] = (p, e, l, nid, s, codec)      # the driver strips what the codec cannot encode
+        out = list(recs.values())
+        rnd.shuffle(out)
+        return out
     if shape == "unicode":
         encs = [e for e in NAME_ENCODINGS if e[3] == "utf-16"]
     elif shape == "surrogates":
